@@ -55,6 +55,10 @@ def extra_scenarios(tier, seed):
     for n in ([8, 32] if tier == 'quick' else [4, 8, 16, 32, 64]):
         out.append(dict(n=n, r=1, mode=['das'] * n, schedule=[], jitter=True, auth='', reject=0, fallback=True))
         out.append(dict(n=n, r=2, mode=['das' if p % 3 else 'send' for p in range(1, n + 1)], schedule=[], jitter=True, auth='', reject=0, fallback=True))
+    # debug logging with the library's own default logger, first burst of dials
+    for n in ([8, 16] if tier == 'quick' else [2, 4, 8, 16, 32]):
+        out.append(dict(n=n, r=1, mode=['das'] * n, schedule=[], jitter=True, auth='', reject=0, fallback=True, debug=True))
+        out.append(dict(n=n, r=1, mode=['das' if p % 2 else 'send' for p in range(1, n + 1)], schedule=[], jitter=True, auth='LOGIN-NOENC', reject=0, debug=True))
     return out
 
 
